@@ -9,6 +9,10 @@ class C18(TieCheck):
     area = "C18"
     props = "Props_C18.v"
     harness = "c18"
+    # tie A (checks/GenTie.py, docs/Gen.md): netutil.SplitHostZone is regenerated into coq/Gen/GenWild.v (BridgeWild.v:
+    # gen_SplitHostZone = ParseIP.split_host_zone) and clientip.trimMatchedEnds into coq/Gen/GenEsc.v (BridgeEsc.v:
+    # = ParseIP.trim_matched_ends); GenTie.props("C18") = Props_Gen.v, Props_Gen_wild.v, Props_Gen_esc.v
+    gentie = "C18"
     extra_trust = [
         "tie A: coq/C18/GenRanges.v is rewritten on every run by harness/cmd/c18gen (go/ast over clientip/clientip.go; "
         "refuses unknown shapes; uses the same net.ParseCIDR as the code)",
